@@ -4,6 +4,16 @@ open PhQVerif Generated
 #print axioms PhQVerif.Props.C11.result_in_range
 #print axioms PhQVerif.Props.C11.symmetric
 #print axioms PhQVerif.Props.C11.quantity_level_is_kernel
+#print axioms PhQVerif.Props.C11.value_is_arccos
+#print axioms PhQVerif.Props.C11.kernels_compute_the_angle
+#print axioms PhQVerif.Props.C11.direction_kernels_compute_the_angle
+#print axioms PhQVerif.Props.C11.symmetric_over_reals
+#print axioms PhQVerif.Props.C11.length_independent
+#print axioms PhQVerif.Props.C11.range_over_reals
+#print axioms PhQVerif.Props.C11.parallel_is_zero
+#print axioms PhQVerif.Props.C11.antiparallel_is_pi
+#print axioms PhQVerif.Props.C11.is_atan2
+#print axioms PhQVerif.Props.C11.folded_constant_comparisons
 #eval s!"COUNT C11.angle_entries {AngleEntries.rows.length}"
 #eval s!"COUNT C11.symmetric_pairs {AngleSym.rows.length}"
 #eval s!"COUNT C11.quantity_level_rows {AngleKernel.rows.length}"
